@@ -151,6 +151,8 @@ func init() {
 						o.MemTableSize = 64 << 10
 						o.ValueThreshold = (15 * o.MemTableSize) / 100 // in-memory mode: values up to the threshold are legal
 						o.managedTxns = mode[0] == 'm'
+					// ~130 commits of ~10 KiB: many flushes, no compactors => never stall on L0
+					o.NumLevelZeroTables, o.NumLevelZeroTablesStall = 1 << 20, 1 << 21
 						if ptr {
 							dir := freshDir(e.j)
 							o.InMemory, o.Dir, o.ValueDir = false, dir, dir
@@ -194,7 +196,9 @@ func init() {
 									sz = 0
 								}
 								if err := txn.Set([]byte(fmt.Sprintf("key-%d", i)), bytes.Repeat([]byte("s"), sz)); err != nil {
-									if err != ErrTxnTooBig {
+									// in memory a value above the value threshold is rejected by validation (legal)
+									overThreshold := o.InMemory && int64(sz) > db.valueThreshold()
+									if err != ErrTxnTooBig && !overThreshold {
 										txn.Discard()
 										return "size-set-error", err.Error()
 									}
